@@ -320,6 +320,109 @@ int LLVMFuzzerTestOneInput(const uint8_t *data, size_t size) {
   free(sigs);
   return 0;
 }
+#elif defined(T_MULTI)
+// bls_verifyPerDistinctMessage vs bls_verifyPerDistinctKey: the two groupings that
+// VerifyBLSSignatureManyMessages chooses between must give the same verdict for the same list of
+// (key, message) pairs, and must accept the aggregate sum sk_i·H(m_i) (C02).
+#define NK 4
+#define NM 4
+#define MAXN 7
+int LLVMFuzzerTestOneInput(const uint8_t *data, size_t size) {
+  if (size < 2 + MAXN + G1_SER_BYTES)
+    return 0;
+  static int init = 0;
+  static Fr sks[NK];
+  static E2 pks[NK];
+  static byte hashes[NM][128];
+  if (!init) {
+    limb_t v[NK] = {3, 5, 7, 11};
+    for (int i = 0; i < NK; i++) {
+      Fr_set_limb(&sks[i], v[i]);
+      G2_mult_gen_to_affine(&pks[i], &sks[i]);
+    }
+    Fr_neg(&sks[3], &sks[0]); // key 3 = -key 0 : cancelling keys
+    G2_mult_gen_to_affine(&pks[3], &sks[3]);
+    for (int m = 0; m < NM; m++)
+      for (int j = 0; j < 128; j++)
+        hashes[m][j] = (byte)(m * 131 + j * 7 + 1);
+    init = 1;
+  }
+  int n = 1 + data[0] % MAXN;
+  int use_good = data[1] & 1;
+  int ki[MAXN], mi[MAXN];
+  for (int i = 0; i < n; i++) {
+    ki[i] = data[2 + i] % NK;
+    mi[i] = (data[2 + i] / NK) % NM;
+  }
+  // the correct aggregate
+  E1 acc, t;
+  E1_set_infty(&acc);
+  for (int i = 0; i < n; i++) {
+    byte s[G1_SER_BYTES];
+    bls_sign(s, &sks[ki[i]], hashes[mi[i]], 128);
+    if (E1_read_bytes(&t, s, G1_SER_BYTES) != VALID)
+      TRAP("bls_sign produced an undecodable signature");
+    E1_add(&acc, &acc, &t);
+  }
+  byte sig[G1_SER_BYTES];
+  if (use_good)
+    E1_write_bytes(sig, &acc);
+  else
+    memcpy(sig, data + 2 + MAXN, G1_SER_BYTES);
+  // grouping per distinct message
+  byte flat_h[MAXN * 128];
+  uint32_t len_h[MAXN], per_h[MAXN];
+  E2 flat_pk[MAXN];
+  int nb_h = 0, off_pk = 0;
+  for (int m = 0; m < NM; m++) {
+    int c = 0;
+    for (int i = 0; i < n; i++)
+      if (mi[i] == m) {
+        E2_copy(&flat_pk[off_pk++], &pks[ki[i]]);
+        c++;
+      }
+    if (c) {
+      memcpy(flat_h + nb_h * 128, hashes[m], 128);
+      len_h[nb_h] = 128;
+      per_h[nb_h] = c;
+      nb_h++;
+    }
+  }
+  int va = bls_verifyPerDistinctMessage(sig, nb_h, flat_h, len_h, per_h, flat_pk);
+  // grouping per distinct key
+  E2 dpk[MAXN];
+  uint32_t per_k[MAXN], len_h2[MAXN];
+  byte flat_h2[MAXN * 128];
+  int nb_k = 0, off_h = 0;
+  for (int k = 0; k < NK; k++) {
+    int c = 0;
+    for (int i = 0; i < n; i++)
+      if (ki[i] == k) {
+        memcpy(flat_h2 + off_h * 128, hashes[mi[i]], 128);
+        len_h2[off_h++] = 128;
+        c++;
+      }
+    if (c) {
+      E2_copy(&dpk[nb_k], &pks[k]);
+      per_k[nb_k] = c;
+      nb_k++;
+    }
+  }
+  int vb = bls_verifyPerDistinctKey(sig, nb_k, dpk, per_k, flat_h2, len_h2);
+  if (va != vb)
+    TRAP("per-message and per-key groupings give different verdicts for the same (key, message) pairs");
+  if (va != VALID && va != INVALID)
+    TRAP("aggregate verification returned an undefined code");
+  if (use_good && va != VALID)
+    TRAP("the aggregate of the individual signatures is rejected");
+  if (!use_good && va == VALID) {
+    byte want[G1_SER_BYTES];
+    E1_write_bytes(want, &acc);
+    if (memcmp(want, sig, G1_SER_BYTES) != 0)
+      TRAP("a string different from the aggregate signature is accepted");
+  }
+  return 0;
+}
 #else
-#error "define one of T_SER_E1 T_SER_E2 T_SER_FR T_SUM_VECTOR T_LAGRANGE T_G2_VECTOR T_VERIFY"
+#error "define one of T_SER_E1 T_SER_E2 T_SER_FR T_SUM_VECTOR T_LAGRANGE T_G2_VECTOR T_VERIFY T_MULTI"
 #endif
